@@ -8,6 +8,8 @@ def cfgOf (profile : String) : Gen.Cfg :=
   | "plain" => { padding := false, ignorable := false, permuteCels := false }
   | "render" => { maxW := 9, maxH := 7, maxLayers := 8, tags := false, slices := false,
                   extFiles := false, userData := false }
+  | "large" => { maxW := 300, maxH := 9, maxFrames := 40, maxLayers := 120, maxTags := 150, maxSlices := 60,
+                 maxKeys := 40 }
   | "rgba" => { depth := 32 }
   | "gray" => { depth := 16 }
   | "indexed" => { depth := 8 }
